@@ -36,22 +36,29 @@ static const char *verif_string(const char *first, long count, const char *suffi
   return c14_strbuf;
 }
 
-/* ------------------------------------------------------------------ parseFloat / parseDouble: ASSUMED contract
- * Real bodies: ::atof(str.c_str()) and sscanf(c, "%lf", &ret), i.e. strtod: the double nearest to the
- * longest prefix of the text that is a decimal floating constant.  The decimal -> binary conversion is
- * not modelled: the result is one unconstrained double per run (the same whichever of the two is called),
- * and the harness checks WHICH text reaches the conversion and what happens to the returned double. */
-static double c14_fp_value;            /* set by the harness: the double strtod returns for the literal */
+/* ------------------------------------------------------------------ parseFloat / parseDouble: ASSUMED contracts (libc)
+ * Real bodies: parseDouble = sscanf(c, "%lf", &ret), i.e. strtod(text): the double nearest to the
+ * longest prefix of the text that is a decimal floating constant; parseFloat = ::atof(text) = strtod(text)
+ * or, once repaired, ::strtof(text): the FLOAT nearest to that prefix (C14_PARSEFLOAT_IS_STRTOF is read
+ * off the real body by the recipe).  The decimal -> binary conversion is not modelled: strtod(literal) and
+ * strtof(literal) are two unconstrained values per run, and NO relation between them is assumed --
+ * (float) strtod(text) differs from strtof(text) when the first rounding lands on the midpoint of two
+ * floats.  The harness checks WHICH text reaches the conversion and what happens to the returned value. */
+static double c14_fp_value;            /* set by the harness: strtod(the literal) */
+static float  c14_fp_value_f;          /* set by the harness: strtof(the literal) = the value of an f-suffixed literal in C++ */
 static int    c14_fp_calls;            /* conversions asked for the literal itself (text starting at c14_text) */
 static long   c14_fp_count;
-static double c14_fp_model(const char *s) {
+static double c14_fp_model(const char *s, _Bool to_float) {
   __CPROVER_assert(s == c14_strbuf, "literal: parseFloat/parseDouble receive a string built by std::string(first, count)");
-  if (c14_str_first == c14_text) { ++c14_fp_calls; c14_fp_count = c14_str_count; return c14_fp_value; }
+  if (c14_str_first == c14_text) {
+    ++c14_fp_calls; c14_fp_count = c14_str_count;
+    return to_float ? (double) c14_fp_value_f : c14_fp_value;
+  }
   double other;                        /* the exponent text converted on its own: only its type tag is read afterwards */
   return other;
 }
-static double occa_parseFloat(const char *s)  { return c14_fp_model(s); }
-static double occa_parseDouble(const char *s) { return c14_fp_model(s); }
+static double occa_parseFloat(const char *s)  { return c14_fp_model(s, C14_PARSEFLOAT_IS_STRTOF); }
+static double occa_parseDouble(const char *s) { return c14_fp_model(s, 0); }
 
 /* ------------------------------------------------------------------ primitive::source (a std::string member): ghost record */
 static const char *c14_src_first; static long c14_src_count; static const char *c14_src_lit;
@@ -110,7 +117,7 @@ static primitive primitive_load_exponent(const char **c_, const bool includeSign
 
 
 #ifdef C14_LITERAL_HARNESS
-_Bool nondet_bool(void); char nondet_char(void); size_t nondet_size(void); double nondet_double(void);
+_Bool nondet_bool(void); char nondet_char(void); size_t nondet_size(void); double nondet_double(void); float nondet_float(void);
 
 static c14_lit_t c14_spec;
 
@@ -143,7 +150,7 @@ void h_literal(void) {
 
   const _Bool includeSign = nondet_bool();     /* tokenizer: shallowPeek passes false, getPrimitiveToken true */
   const char *cursor = c14_text;
-  c14_fp_value = nondet_double(); c14_fp_calls = 0; c14_fp_count = -1;
+  c14_fp_value = nondet_double(); c14_fp_value_f = nondet_float(); c14_fp_calls = 0; c14_fp_count = -1;
   c14_src_first = 0; c14_src_count = -1; c14_src_lit = 0;
   verif_raised = 0;
 
@@ -176,9 +183,9 @@ void h_literal(void) {
                      "floating literal: the text handed once to the decimal-to-binary conversion (parseFloat/parseDouble) is the literal");
     if (c14_fp_calls == 1) {
       if (c14_spec.tag == primitiveType_float_) {
-        __CPROVER_assert(c14_num_eq_f(r, (double) (float) c14_fp_value), "floating literal: has the converted value, rounded to float for an f suffix");
+        __CPROVER_assert(c14_num_eq_f(r, (double) c14_fp_value_f), "floating literal with f suffix: has the value of the literal, the float nearest to the text (strtof), not a double rounded again");
       } else {
-        __CPROVER_assert(c14_num_eq_f(r, c14_fp_value), "floating literal: has the converted value");
+        __CPROVER_assert(c14_num_eq_f(r, c14_fp_value), "floating literal without suffix: has the value of the literal, the double nearest to the text (strtod)");
       }
     }
   }
@@ -200,7 +207,7 @@ void h_exponent(void) {
   if (!e.ok || 2 + e.len > C14_LIT_MAX) return;
   for (size_t k = 0; k < C14_LIT_MAX + 1; ++k) if (k > 2 + e.len) c14_text[k] = 0;
   const char *cursor = start;
-  c14_fp_value = nondet_double(); c14_fp_calls = 0; c14_fp_count = -1;
+  c14_fp_value = nondet_double(); c14_fp_value_f = nondet_float(); c14_fp_calls = 0; c14_fp_count = -1;
   verif_raised = 0;
 
   primitive r = primitive_load(&cursor, 1);
